@@ -26,7 +26,7 @@ func init() {
 		Assumptions: []string{"a node cordoned after the list was taken is outside the statement (pre-scan snapshot)"}})
 	register(&propSpec{ID: "C10", Run: checkC10,
 		Explanation: "The grace reaper's append implies ¬protected(n) where protected is the existential search for key atlassian.com/no-delete with a non-empty value; the protected edge continues the loop (no break/return), the loop's only exit is exhaustion, and safeFromDeletion has no caller besides the grace reaper, so the annotation affects neither tainting nor counting.",
-		RuleText:    "R1 guard implication, R2 predicate shape, R3 continue-not-break, R4 callers / readers of the annotation key, R5 deletion flow, R6 listed objects reach the guard as the API server sent them (no transform, no writes)",
+		RuleText:    "R1 guard implication, R2 predicate shape, R3 continue-not-break, R4 callers / readers of the annotation key, R5 deletion flow, R6 listed objects reach the guard as the API server sent them (no transform, no writes), R7 the force list holds only force-tainted nodes",
 		Assumptions: []string{"the force-removal path is outside the statement (\"and no force-removal taint\")"}})
 }
 
@@ -586,6 +586,7 @@ func (ck *Check) emptinessShape(rule string) {
 	// NodePodsRemaining: lookup by node.Name; counter over every pod with ¬daemonset
 	{
 		fn := a.PodsRemaining
+		outerFn := fn
 		ctx := ck.P.NewCtx(fn)
 		var rets []*ssa.Return
 		for _, b := range fn.Blocks {
@@ -597,8 +598,39 @@ func (ck *Check) emptinessShape(rule string) {
 		var why []string
 		for _, r := range rets {
 			// the "true" return
+			isTrue := false
 			if k, ok := r.Results[1].(*ssa.Const); ok && k.Value != nil && k.Value.String() == "true" {
-				ph, ok := r.Results[0].(*ssa.Phi)
+				isTrue = true
+			} else if imp, _, _ := Entails(ctx.PC(r), ctx.Formula(r.Results[1])); imp {
+				isTrue = true // `return remaining, found` on the path where found holds
+			}
+			if isTrue {
+				// the counter: a loop-carried φ here, or the result of a counting helper handed the pods
+				countV := r.Results[0]
+				fn, ctx := fn, ctx
+				if c, isCall := countV.(*ssa.Call); isCall {
+					if h := c.Common().StaticCallee(); h != nil && ck.P.inRepo(h) && h.Blocks != nil && h.Signature.Results().Len() == 1 {
+						args := make([]*Term, len(c.Common().Args))
+						for i, av := range c.Common().Args {
+							args[i] = ctx.Term(av)
+						}
+						ch := ctx.child(h, c, args)
+						ch.depth = 0
+						var hv ssa.Value
+						nret := 0
+						for _, hb := range h.Blocks {
+							if hr, ok := hb.Instrs[len(hb.Instrs)-1].(*ssa.Return); ok {
+								nret++
+								hv = hr.Results[0]
+							}
+						}
+						if nret == 1 {
+							countV, fn, ctx = hv, h, ch
+						}
+					}
+				}
+				_ = fn
+				ph, ok := countV.(*ssa.Phi)
 				if !ok {
 					why = append(why, "count is not a loop-carried counter")
 					continue
@@ -655,8 +687,8 @@ func (ck *Check) emptinessShape(rule string) {
 				if okOver {
 					recv := over.Args[0]
 					okOver = recv.Kind == "extract" && recv.Name == "0" && recv.Args[0].Kind == "lookup" &&
-						recv.Args[0].Args[0].Key() == paramTerm(fn.Params[1]).Key() &&
-						recv.Args[0].Args[1].Key() == ck.nodeField(paramTerm(fn.Params[0]), "ObjectMeta", "Name").Key()
+						recv.Args[0].Args[0].Key() == paramTerm(outerFn.Params[1]).Key() &&
+						recv.Args[0].Args[1].Key() == ck.nodeField(paramTerm(outerFn.Params[0]), "ObjectMeta", "Name").Key()
 				}
 				if !okOver {
 					why = append(why, "loop does not range over the pods filed under node.Name: "+over.String())
@@ -975,6 +1007,9 @@ func checkC10(ck *Check) {
 	// R6 the annotation the predicate reads is the API server's: no informer transform, no write
 	// into listed objects (decided as C01.R8)
 	ck.nodeListImmutability("C10.R6")
+	// R7 the only removals that bypass the guard are those of nodes carrying the force-removal taint:
+	// the list the force reaper works on holds nothing else (the classifier's guard, decided as C01.R5)
+	ck.classification("C10.R7", map[int]string{2: "force"})
 }
 
 // protectedPredicate: safeFromDeletion's result 1 is true exactly on returns inside a map
@@ -1519,7 +1554,7 @@ func (ck *Check) countingArgs(rule string) {
 // of the call (or of its idx-th component).
 func boolResultFormula(ctx *Ctx, fn *ssa.Function, args []*Term, idx int) *Formula {
 	call := &Term{Kind: "call", Name: funcID(fn), Fn: fn, Obj: fn.Object(), Args: args}
-	if ctx.inlinable(fn) {
+	if ctx.inlinable(fn) && !ctx.p.noExpand[fn] {
 		return ctx.childTerm(call).returnFormula(idx)
 	}
 	if fn.Signature.Results().Len() == 1 {
